@@ -255,7 +255,13 @@ fn gen_table(rng: &mut Rng, policy_ix: usize) -> (GenTable, Vec<Vec<Option<Strin
       None
     };
     let p_ov = if prioritising { 4 } else { 1 };
-    let output_values = if rng.chance(p_ov, 5) {
+    let output_values = if ty == Ty::Num && !prioritising && rng.chance(1, 6) {
+      // output values written as tests rather than as a list of literals (entries are 1..6)
+      Some(
+        (*rng.pick(&["[1..6]", "> 0", "<= 4", "not(7)", "[1..3], [5..6]", "(0..7)", "< 3, >= 4", "not(2, 3)", "[1..6)", "1, 2, [4..6]"]))
+          .to_string(),
+      )
+    } else if rng.chance(p_ov, 5) {
       let mut pool: Vec<String> = match ty {
         Ty::Num => (1..=6).map(|k| k.to_string()).collect(),
         Ty::Str => STRS.iter().map(|s| format!("\"{}\"", s)).collect(),
@@ -627,7 +633,14 @@ fn request(t: &GenTable, ctx: &FeelContext) -> Option<String> {
   let mut defaults = vec![];
   let mut ov_nodes = vec![];
   for c in &t.outs {
-    ovals.push(cell_sexp(&scope, &c.output_values)?);
+    // output values written as tests have no priority order; under a hit policy that does not prioritise they
+    // only filter the output cells (shipped evaluated, below)
+    let prioritising = matches!(t.hit_policy.map(|s| s.trim()), Some("PRIORITY") | Some("OUTPUT ORDER"));
+    ovals.push(match cell_sexp(&scope, &c.output_values) {
+      Some(x) => x,
+      None if !prioritising => Sexp::atom("other"),
+      None => return None,
+    });
     defaults.push(cell_sexp(&scope, &c.default)?);
     ov_nodes.push(match &c.output_values {
       Some(t) => Some(dmntk_feel_parser::parse_unary_tests(&scope, t, false).ok()?),
@@ -864,7 +877,8 @@ pub fn run(cfg: &Cfg) -> Report {
         let listed: Vec<&str> = ov.split(',').map(|x| x.trim()).collect();
         for r in &t.rules {
           let entry = r.outputs[ci].trim();
-          if entry == "null" || !listed.contains(&entry) {
+          let by_test = entry.parse::<i64>().ok().and_then(|v| entry_oracle(ov, v)) == Some(true);
+          if entry == "null" || !(listed.contains(&entry) || by_test) {
             continue;
           }
           let shown = guarded(|| {
@@ -885,7 +899,7 @@ pub fn run(cfg: &Cfg) -> Report {
               rep.disagree(
                 Kind::ImplVsSpec,
                 "output-cell",
-                "an output entry listed among the output values is not the output of its rule",
+                "an output entry admitted by the output values is not the output of its rule",
                 &format!("output entry `{}` against the output values `{}`", entry, ov),
                 &g,
                 w,
